@@ -23,7 +23,8 @@ RULE = ("Hypothesis-generated command histories over one project (experiments wi
         "options.json iff declared (decoding to the declaration); each new row belongs to an execution that exited 0 in that "
         "step and carries that invocation's HEAD hash and dirty flag; restored rows equal what was archived. "
         "Non-trivial = a killed step whose kill point lies after the first spawn/copy and before the command's end, or a run in "
-        "which one experiment fails while another is recorded. Distinct = SHA-1 of case JSON.")
+        "which one experiment fails while another is recorded. Distinct = SHA-1 of case JSON."
+        " Also generated: `clean -f` as a killable step and kill points inside shutil (rmtree/copytree) under a generated directory-listing order; git steps touch (same content, new mtime: not a change) and dirty_staged (a change that is completely staged: a change).")
 ASSUMPTIONS = ["process-kill semantics at Python-line granularity; power loss is out of scope",
                "the order in which a directory's entries are listed is chosen by the case (fs order, sorted, reversed, seeded permutations)"]
 ESSENTIAL = ["touched_but_unchanged", "dirty_only_in_index", "kill_during_run_after_spawn", "kill_during_restore_after_copy", "kill_during_gc", "kill_during_clean_partway", "kill_inside_shutil", "nonzero_exit_not_recorded",
